@@ -195,6 +195,10 @@ func (p *jsonPathParser) setConnectedText(targetNode syntaxNode, postfix ...stri
 	targetNode.setConnectedText(targetNode.getText() + appendText)
 
 	if multiIdentifier, ok := targetNode.(*syntaxChildMultiIdentifier); ok {
+		// An error raised by an inner identifier is an error of the selector.
+		for _, identifier := range multiIdentifier.identifiers {
+			identifier.setConnectedText(targetNode.getConnectedText())
+		}
 		if multiIdentifier.isAllWildcard {
 			multiIdentifier.unionQualifier.setConnectedText(targetNode.getConnectedText())
 		}
@@ -245,6 +249,9 @@ func (p *jsonPathParser) setLastNodeText(text string) {
 	node.setText(text)
 
 	if multiIdentifier, ok := node.(*syntaxChildMultiIdentifier); ok {
+		for _, identifier := range multiIdentifier.identifiers {
+			identifier.setText(text)
+		}
 		if multiIdentifier.isAllWildcard {
 			multiIdentifier.unionQualifier.setText(text)
 		}
